@@ -28,6 +28,8 @@ limitations under the License.
 #include "events_map.h"
 #include "reset_handle.h"
 
+#include <photon/common/verif-hooks.h>
+
 namespace photon {
 #ifndef EPOLLRDHUP
 #define EPOLLRDHUP 0
@@ -142,6 +144,7 @@ public:
 
             eint |= e.interests;
             op = EPOLL_CTL_MOD;
+            VERIF_COV(C_EPOLL_BOTH_DIR);
         }
 
         auto events = evmap.translate_bitwisely(eint);
@@ -220,6 +223,9 @@ ok:     entry.interests |= eint;
                 cool_down_ms *= 2;
                 continue;
             }
+#ifdef PHOTON_VERIF
+            if (ret == (int)LEN(_events)) VERIF_COV(C_EPOLL_BATCH_FULL);
+#endif
             return _events_remain = ret;
         }
         return -1;
@@ -255,6 +261,9 @@ ok:     entry.interests |= eint;
                 events |= EVENT_WRITE;
                 datacb(entry.writer_data);
             }
+#ifdef PHOTON_VERIF
+            if (!events) VERIF_COV(C_EPOLL_STALE_EVENT);
+#endif
             if (events && (entry.interests & ONE_SHOT)) {
                 rm_interest({.fd = (int)e.data.u64,
                              .interests = events,
@@ -303,6 +312,7 @@ ok:     entry.interests |= eint;
         int ret = add_interest({fd, interest | ONE_SHOT, CURRENT});
         if (ret < 0) LOG_ERROR_RETURN(0, -1, "failed to add event interest");
         SCOPED_PAUSE_WORK_STEALING;
+        VERIF_COV(C_EPOLL_WAIT_FD);
         ret = thread_usleep(timeout);
         ERRNO err;
         if (ret == -1 && err.no == EOK) {
